@@ -382,10 +382,10 @@ def relocOne (base : Nat) (atOffset : Nat) (st : RelocState) (re : Reloc) : Relo
         match st.entries.find? (fun e => e.addr == re.payload) with
         | none => (st, .error .invalidRelocEntry)
         | some ent =>
-          let (slot, entries, count) := match ent.slot with
-            | some sl => (sl, st.entries, st.count)
-            | none => (st.count, assignSlot st.entries re.payload st.count, st.count + 1)
-          let st1 := { st with entries := entries, count := count }
+          -- `if (!at_entry->has_assigned_slot()) at_entry->_slot = address_table_entry_size++;`
+          let slot := ent.slot.getD st.count
+          let st1 : RelocState :=
+            if ent.slot.isNone then { st with entries := assignSlot st.entries re.payload st.count, count := st.count + 1 } else st
           let atIndex := slot * 8
           let addrSrc := (src.offset + re.srcOff + 6) % U64
           let addrDst := (atOffset + atIndex) % U64
@@ -437,7 +437,7 @@ def relocate (h : Holder) (base : Nat) : Holder × Except Err Unit × Nat :=
 /-! ### histories -/
 
 inductive Op
-  | newSection (name : String) (align : BitVec 32) (order : Int)
+  | newSection (name : String) (align : BitVec 32) (order : BitVec 32)   -- `int32_t order`
   | appendData (id : Nat) (bytes : List Byte)
   | setVsize (id : Nat) (v : Nat)
   | addAddress (addr : Nat)
@@ -447,7 +447,7 @@ inductive Op
 deriving Repr
 
 def step (h : Holder) : Op → Holder
-  | .newSection n a o => (newSection h n a o).1
+  | .newSection n a o => (newSection h n a o.toInt).1
   | .appendData id b => (appendData h id b).1
   | .setVsize id v => (setVsize h id v).1
   | .addAddress a => addAddress h (a % U64)
